@@ -342,30 +342,34 @@ Definition host_try_parse (o : opts) (l0 : list node) (endp : pos) (st : wstate)
 
 (* second scan (fix 1041599): `:host` later among the top-level tokens of the prelude.  Tokens are
    read with next_including_whitespace (comments skipped, whitespace is a token); `found` is the
-   position after the first `host` that directly follows a colon; Err (None) when the input ends
-   before a `{}` block or no `:host` was found *)
-Fixpoint host_late_scan (l : list node) (endp : pos) (after_colon : bool) (found : option pos)
+   position after the first `host` that directly follows a single colon (`::host` is a pseudo-element of
+   that name, not the pseudo-class: `colons` counts the colons just read, saturating at 2); Err (None) when
+   the input ends before a `{}` block or no `:host` was found *)
+Definition colons_next (c : nat) : nat := match c with O => 1%nat | _ => 2%nat end.
+Definition one_colon (c : nat) : bool := match c with S O => true | _ => false end.
+
+Fixpoint host_late_scan (l : list node) (endp : pos) (colons : nat) (found : option pos)
   : option (list node * pos) :=
   match l with
   | [] => None
   | n :: r =>
-      if is_comment (node_tok n) then host_late_scan r endp after_colon found
+      if is_comment (node_tok n) then host_late_scan r endp colons found
       else match n with
            | Block TCurly _ _ _ _ => match found with Some p => Some (r, p) | None => None end
            | Leaf (TIdent s) _ =>
-               host_late_scan r endp false
-                 (if after_colon && str_eqb_ci s s_host then keep_first found (pos_after n r endp) else found)
+               host_late_scan r endp O
+                 (if one_colon colons && str_eqb_ci s s_host then keep_first found (pos_after n r endp) else found)
            | Block (TFunc s) _ _ _ _ =>
-               host_late_scan r endp false
-                 (if after_colon && str_eqb_ci s s_host then keep_first found (pos_after n r endp) else found)
-           | Leaf TColon _ => host_late_scan r endp true found
-           | _ => host_late_scan r endp false found
+               host_late_scan r endp O
+                 (if one_colon colons && str_eqb_ci s s_host then keep_first found (pos_after n r endp) else found)
+           | Leaf TColon _ => host_late_scan r endp (colons_next colons) found
+           | _ => host_late_scan r endp O found
            end
   end.
 
 (* the rule does not start with `:host` *)
 Definition qr_main (o : opts) (l0 : list node) (endp : pos) (st : wstate) : list node * wstate :=
-  match (if convert_host o then host_late_scan l0 endp false None else None) with
+  match (if convert_host o then host_late_scan l0 endp O None else None) with
   | Some (rest, wp) => (rest, warn st W_HOST wp)
   | None => qr_loop o l0 false false st
   end.
